@@ -20,7 +20,7 @@ from ptera.probe import probing
 from ptera.selector import select
 from ptera.utils import ABSENT
 
-FNS = {"f": world.f, "g": world.g, "h": world.h}
+FNS = {"f": world.f, "g": world.g, "h": world.h, "s": world.s}
 ENV = dict(vars(world))
 ENV.update(lt=ptools.lt, gt=ptools.gt, lte=ptools.lte, gte=ptools.gte, every=ptools.every, between=ptools.between)
 
@@ -225,6 +225,8 @@ def to_events(log):
                 e = {"ev": "ann", "var": "c", "val": arg}
             elif name == "raiseb":
                 e = {"ev": "raise", "val": arg}
+            elif name.startswith("sloop_"):
+                e = {"ev": "sloop", "var": name[-1], "val": 0}
             else:
                 e = {"ev": name, "val": arg}
             e["dlv"] = []
